@@ -237,6 +237,19 @@ def bounded(tier, seed):
             distinct.add((iface, "redirect", url))
             if v and len(failures) < 10:
                 failures.append({"inputs": {"kind": "redirect", "url": url, "iface": iface}, "violated": v})
+        # long values outside Latin-1 (CJK, emoji, the euro sign): whatever the response does with them at emission time - send
+        # them, refuse them (UnicodeEncodeError) - the emitted lines hold no CR / LF / NUL (e.g. no folded encoded-words)
+        for text in ("\u62a5\u544a" * 12, "\u20ac" * 40, "title \U0001f600 " * 8, "x" * 70 + "\u20ac", "\u62a5 " * 30):
+            for op in ops_names:
+                evals += 1
+                v = case_mapping([(op, "X-Title", text)], iface)
+                distinct.add((iface, "long", op, text[:4]))
+                if v and len(failures) < 10:
+                    failures.append({"inputs": {"kind": "mapping", "ops": [[op, "X-Title", text]], "iface": iface}, "violated": v})
+            evals += 1
+            v = case_ctor("Response", [("X-Title", text)], iface)
+            if v and len(failures) < 10:
+                failures.append({"inputs": {"kind": "ctor", "cls": "Response", "headers": [["X-Title", text]], "iface": iface}, "violated": v})
         # headers handed to a constructor (the mapping is built by MutableHeaders.__init__, not by __setitem__)
         cvals = ["v", "a\r\nX-Evil: 1", "a\nb", "\0", "x\ry"] + (dirty[:40] if tier == "thorough" else dirty[:6])
         for cls in CTORS:
